@@ -368,6 +368,58 @@ def g_containment(mode):
         fresh.close()
         for c in stalled:
             c.close()
+    # several events in ONE select round of the multiplex server: its loop thread is parked inside a remote method while an established connection sends hostile bytes,
+    # a new client connects, and a witness sends a request; when the loop resumes it finds all of them ready at once.  Everybody but the hostile peer is served.
+    gate = threading.Event()
+
+    @api.expose
+    class Parking(Bad):
+        def hold(self):
+            gate.wait(5.0)
+            return "released"
+    for hostile_bytes in (b"\xff" * 40, b"PYRX" + b"\0" * 36, valid_invoke[:12] + struct.pack("!I", 2 ** 31) + valid_invoke[16:], valid_invoke[:7] + b"\x63" + valid_invoke[8:]):
+        RUNS[0] += 1
+        gate.clear()
+        with Running("multiplex", COMMTIMEOUT=0.0) as r:
+            r.daemon.register(Parking(), "bad")
+            witness, hostile_c, blocker = Raw(r.addr, timeout=4.0), Raw(r.addr, timeout=4.0), Raw(r.addr, timeout=4.0)
+            okc = all(c.connect("bad") is not None for c in (witness, hostile_c, blocker))
+            blocker.invoke("bad", "hold", (), seq=2)
+            time.sleep(0.1)                                  # the loop thread is inside hold() now
+            hostile_c.sock.sendall(hostile_bytes)
+            newcomer = Raw(r.addr, timeout=4.0)
+            newcomer.send_msg(P.MSG_CONNECT, newcomer.ser.dumps({"handshake": "hello", "object": "bad"}))
+            witness.invoke("bad", "ok", (), seq=3)
+            time.sleep(0.1)
+            gate.set()
+            mb = blocker.reply()
+            mn = newcomer.reply()
+            mw = witness.reply()
+            time.sleep(0.1)
+            late = Raw(r.addr, timeout=2.0)
+            ml = None
+            try:
+                ml = late.connect("bad")
+            except Exception:      # noqa
+                pass
+            problems = []
+            if not okc:
+                problems.append("setup failed")
+            if mb is None:
+                problems.append("the call that was being served got no reply")
+            if mn is None or mn.type != P.MSG_CONNECTOK:
+                problems.append("the client that connected in the same round was not accepted")
+            if mw is None or mw.seq != 3:
+                problems.append("the witness connection got no reply")
+            if ml is None or ml.type != P.MSG_CONNECTOK:
+                problems.append("no new connection is accepted afterwards")
+            if not r.loop_alive():
+                problems.append("the request loop thread ended")
+            if problems:
+                fail(group="C05", server="multiplex", scenario="hostile bytes, a new connection and a request in one select round", hostile=list(hostile_bytes[:16]),
+                     violated="; ".join(problems))
+            for c in (witness, hostile_c, blocker, newcomer, late):
+                c.close()
 
 
 # ---------------------------------------------------------------------------------------------------------------------
@@ -1333,6 +1385,15 @@ def g_registry(mode):
             after = kind_of(us, "t1", "serpent")
             if before == "proxy" and after == "value" and d.objectsById.get("t1id") is t1 and "C16-by-value-trip-switches-auto-proxy-off" not in KNOWN:
                 KNOWN.append("C16-by-value-trip-switches-auto-proxy-off")
+            RUNS[0] += 1
+            t3 = Box("t3")
+            REG["t3"] = t3
+            d.register(t3, "t3old")
+            d.register(t3, "t3new", force=True)
+            d.unregister("t3old")                   # by id: the object is still registered under its newer id and must keep arriving as a proxy
+            if d.objectsById.get("t3new") is t3 and kind_of(us, "t3", "serpent") != "proxy":
+                fail(group="C16", how="registered-under-two-ids-then-older-id-unregistered-by-id", violated="an object that is still registered (under its newer id) arrived by value")
+            d.unregister("t3new")
             RUNS[0] += 1
             t2 = Box("t2")
             REG["t2"] = t2
